@@ -390,7 +390,11 @@ func (ex *Exec) qcounter() int { qctr++; return qctr }
 func (env *SpecEnv) call(x *SCall) Val {
 	ex := env.ex
 	if id, ok := x.Fn.(*SIdent); ok {
-		if _, shadow := env.bind[id.Name]; !shadow {
+		shadow := false
+		if bv, ok := env.bind[id.Name]; ok {
+			_, shadow = sigOf(bv.Go)
+		}
+		if !shadow {
 			switch id.Name {
 			case "len", "cap":
 				v := env.eval(x.Args[0])
@@ -427,6 +431,16 @@ func (env *SpecEnv) call(x *SCall) Val {
 					return Val{T: sAnd(sNot(sEq(a, "nilarr")), sNot(sSel(ex.arrAllocArr(env.old), a)), sSel(ex.arrAllocArr(env.st), a)), S: sBool}
 				}
 				return Val{T: sAnd(sNot(sEq(v.T, "nil")), sNot(sSel(ex.allocArr(env.old), v.T)), sSel(ex.allocArr(env.st), v.T)), S: sBool}
+			case "row":
+				v := env.eval(x.Args[0])
+				if v.S.Kind != KSlice {
+					env.fail("row() needs a slice")
+				}
+				ss := *ex.w.seqSort(v.S.Elem)
+				e2 := *v.S.Elem
+				e2.Go = elemGoType(v.Go)
+				ss.Elem = &e2
+				return Val{T: sSel(ex.mem(env.st, v.S.Elem), fmt.Sprintf("(s_arr %s)", v.T)), S: &ss}
 			case "arr":
 				v := env.eval(x.Args[0])
 				return Val{T: fmt.Sprintf("(s_arr %s)", v.T), S: sArrId}
@@ -721,7 +735,7 @@ func (ex *Exec) loadFieldPure(st *State, base Val, f *types.Var) Val {
 		return ex.arrayFieldSlice(base.T, n, stT, f.Name(), arr, ft)
 	}
 	key := ex.fieldKey(n, stT, f.Name())
-	a := ex.heapGet(st, key, ex.fieldArraySort(fs))
+	a := ex.heapGet(st, key, ex.fieldArraySort(fs), ft)
 	return Val{T: sSel(a, base.T), S: fs, Go: ft}
 }
 
@@ -737,7 +751,7 @@ func (ex *Exec) loadStructPure(st *State, ref string, ty types.Type) Val {
 }
 
 func (ex *Exec) loadElemPure(st *State, sl Val, idx string) Val {
-	m := ex.mem(st, sl.S.Elem)
+	m := ex.heapGet(st, ex.memKey(sl.S.Elem), ex.w.memSort(sl.S.Elem), elemGoType(sl.Go))
 	return Val{T: sSel(sSel(m, fmt.Sprintf("(s_arr %s)", sl.T)), fmt.Sprintf("(+ (s_off %s) %s)", sl.T, idx)), S: sl.S.Elem, Go: elemGoType(sl.Go)}
 }
 
@@ -834,7 +848,7 @@ func (env *SpecEnv) fieldTarget(base Val, n *types.Named, stT *types.Struct, f *
 	fs := ex.w.sortOf(ft)
 	key := ex.fieldKey(n, stT, f.Name())
 	as := ex.fieldArraySort(fs)
-	ex.heapGet(env.st, key, as)
+	ex.heapGet(env.st, key, as, ft)
 	return modTarget{key: key, obj: base.T, sort: as}
 }
 
@@ -897,27 +911,6 @@ func (ex *Exec) frameCond(pre, post *State, key string, s *Sort, targets []modTa
 // relative to pre (targets == nil: constrained by the enclosing method's modifies clause).
 func (ex *Exec) havocHeap(st *State, pre *State, ws *writeSet, targets []modTarget) {
 	useTop := targets == nil
-	for _, key := range sortedKeys(ws.keys) {
-		s := ws.keys[key]
-		if key == "alloc" || key == "arralloc" {
-			continue
-		}
-		ex.heapGet(st, key, s)
-		if _, ok := pre.heap[key]; !ok {
-			pre.heap[key] = st.heap[key]
-		}
-		ex.heapHavoc(st, key, s)
-		if useTop {
-			// inside a loop: locations outside the method's modifies clause keep their entry value
-			if ex.entry != nil && ex.topTargets != nil {
-				if _, ok := ex.entry.heap[key]; ok {
-					st.assume(ex.frameCond(ex.entry, st, key, s, ex.topTargets))
-				}
-			}
-		} else {
-			st.assume(ex.frameCond(pre, st, key, s, targets))
-		}
-	}
 	// allocation only grows
 	if ws.all || ws.keys["alloc"] != nil {
 		a0 := ex.allocArr(st)
@@ -929,6 +922,30 @@ func (ex *Exec) havocHeap(st *State, pre *State, ws *writeSet, targets []modTarg
 		a0 := ex.arrAllocArr(st)
 		a1 := ex.heapHavoc(st, "arralloc", ex.w.setSort(sArrId))
 		st.assume(fmt.Sprintf("(forall ((r ArrId)) (! (=> (select %s r) (select %s r)) :pattern ((select %s r))))", a0, a1, a0))
+	}
+	for _, key := range sortedKeys(ws.keys) {
+		s := ws.keys[key]
+		if key == "alloc" || key == "arralloc" {
+			continue
+		}
+		ex.heapGet(st, key, s)
+		if _, ok := pre.heap[key]; !ok {
+			pre.heap[key] = st.heap[key]
+		}
+		n := ex.heapHavoc(st, key, s)
+		if ax := ex.heapTyping(n, key, s, ex.allocArr(st), ex.arrAllocArr(st)); ax != "" {
+			st.assume(ax)
+		}
+		if useTop {
+			// inside a loop: locations outside the method's modifies clause keep their entry value
+			if ex.entry != nil && ex.topTargets != nil {
+				if _, ok := ex.entry.heap[key]; ok {
+					st.assume(ex.frameCond(ex.entry, st, key, s, ex.topTargets))
+				}
+			}
+		} else {
+			st.assume(ex.frameCond(pre, st, key, s, targets))
+		}
 	}
 }
 
